@@ -765,8 +765,13 @@ package gorm
 //@   let select0 = db.Statement.Clauses["SELECT"]
 //@   ensures ordering-restored: hadOrder && !grouped ==> has(result.Statement.Clauses, "ORDER BY") && result.Statement.Clauses["ORDER BY"] == order0
 //@   ensures selection-restored: hadSelect ==> has(result.Statement.Clauses, "SELECT") && result.Statement.Clauses["SELECT"] == select0
-//@   ensures receiver-keeps-its-ordering: hadOrder ==> has(db.Statement.Clauses, "ORDER BY") && db.Statement.Clauses["ORDER BY"] == order0 [C06]
-//@   ensures receiver-keeps-its-selection: hadSelect ==> has(db.Statement.Clauses, "SELECT") && db.Statement.Clauses["SELECT"] == select0 [C06]
+//@ # Count edits clauses only in the statement of the instance it made (tx): on a reusable handle that is a clone, so
+//@ # the handle keeps its ORDER BY and SELECT.
+//@ site count-edits-its-own-statement
+//@   match mapdelete Statement.Clauses | mapwrite Statement.Clauses
+//@   in gorm.(*DB).Count gorm.(*DB).Count$*
+//@   min-sites 4
+//@   assert statement-of-the-instance: recv == tx.Statement [C06]
 
 //@ # ---------- C19: ToSQL renders the receiver's chain in a dry-run session ----------
 //@ # The handle given to the callback is a DryRun session (no driver call), without the implicit transaction, and it
